@@ -194,8 +194,7 @@ func (x *Exec) define(st *State, t *Term, hint string) *Term {
 	if t == nil || t.K != TApp || termSize(t, 6) <= 5 {
 		return t
 	}
-	c := Const(freshName("v:"+hint), t.Sort)
-	defConsts.Store(c.Op, true)
+	c := Const(freshName("d:"+hint), t.Sort)
 	st.PC = append(st.PC, Eq(c, t))
 	return c
 }
@@ -309,7 +308,7 @@ func (x *Exec) havocPointees(st *State, args []*Val, callee string) {
 		if a != nil && a.K == VIface && a.Tag != nil && a.Tag.K == TNum {
 			// a pointer passed as an interface value (e.g. a ParamSet): the object behind it
 			if T := typeIDTypes[int(a.Tag.Num.Int64())]; T != nil && classify(T) == VPtr {
-				if et := ptrElem(T); et != nil && classify(et) == VStruct {
+				if et := ptrElem(T); et != nil && len(flatten(et)) > 0 {
 					nv := x.freshLike(st, &Val{Typ: et}, "out")
 					decoded(nv)
 					if err := st.storeObj(et, a.T, "", nv); err == nil {
@@ -330,7 +329,8 @@ func (x *Exec) havocPointees(st *State, args []*Val, callee string) {
 				x.note("out-parameter of unmodelled call " + callee + ": pointee set to an unknown value")
 			}
 		case PObj:
-			if a.Ptr.Root != nil && classify(a.Ptr.Root) == VStruct {
+			// (any pointee type: a decoder fills a map, a slice or a scalar behind the pointer just as well as a struct)
+			if a.Ptr.Root != nil && len(flatten(a.Ptr.Root)) > 0 {
 				nv := x.freshLike(st, &Val{Typ: a.Ptr.Root}, "out")
 				decoded(nv)
 				if err := st.storeObj(a.Ptr.Root, a.T, "", nv); err == nil {
